@@ -855,7 +855,8 @@ pub struct Scenario {
     /// the incarnation (None: clean exit after the writes)
     pub incs: Vec<(usize, Option<u32>)>,
     pub chunks: usize,
-    /// 0: every word of publication k carries k; 1: consecutive publications differ in the status word only
+    /// 0: every word of publication k carries k; 1: consecutive publications differ in the status word only;
+    /// 2: real records alternate with the all-zero placeholder; 3: the same record is published repeatedly
     pub family: u8,
 }
 
@@ -896,7 +897,24 @@ pub fn tagged(k: i64) -> Rec {
 pub fn record_for(family: u8, k: i64) -> Rec {
     match family {
         0 => tagged(if k == 0 { 1000 } else { k }),
-        _ => Rec { as_of_s: 5000, as_of_ns: 123_456_789, va_s: 6000, va_ns: 0, bound: 77_000_001, drift: 1000, reserved: 0, status: [1u32, 2, 0][(k.rem_euclid(3)) as usize] },
+        1 => Rec { as_of_s: 5000, as_of_ns: 123_456_789, va_s: 6000, va_ns: 0, bound: 77_000_001, drift: 1000, reserved: 0, status: [1u32, 2, 0][(k.rem_euclid(3)) as usize] },
+        // 2: a real record alternating with the daemon's placeholder record (what a restarted daemon
+        // publishes until chrony is synchronised again): zeros are data too
+        2 => {
+            if k.rem_euclid(2) == 1 {
+                Rec { as_of_s: 5000 + k, as_of_ns: 123_456_789, va_s: 6000 + k, va_ns: 0, bound: 77_000_001, drift: 1000, reserved: 0, status: 1 }
+            } else {
+                Rec { as_of_s: 0, as_of_ns: 0, va_s: 1000, va_ns: 0, bound: 0, drift: 1000, reserved: 0, status: 0 }
+            }
+        }
+        // 3: the same record published again and again (what the daemon does while nothing changes)
+        _ => {
+            if k == 0 {
+                Rec { as_of_s: 4000, as_of_ns: 1, va_s: 5000, va_ns: 0, bound: 55_000, drift: 1000, reserved: 0, status: 1 }
+            } else {
+                Rec { as_of_s: 5000, as_of_ns: 123_456_789, va_s: 6000, va_ns: 0, bound: 77_000_001, drift: 1000, reserved: 0, status: 2 }
+            }
+        }
     }
 }
 
